@@ -7,6 +7,52 @@ TB = ("Coq 8.16.1 kernel; axioms as printed by Print Assumptions (allow-list in 
       "tied to /repo only by that correspondence (DESIGN.md section 8)")
 
 CHECKS = {
+ "C01": dict(
+   text="PARTIAL proof. The reference is a compositional trace semantics written in Coq (Spec/SpecSolve.v: events and "
+        "terminals; no nodes, flags or resumption); the full statement - draining a query's node yields the reference answers, "
+        "in order and multiplicity, equal up to renaming of unbound variables, and the reference output - is the Definition "
+        "refines_reference (Spec/Refine.v, = C01_full) and is NOT yet proved. Machine-checked for all programs: the "
+        "`$Var = value` format of solve/solve_all, that an answer sequence ends for good (C05), that calls are opaque to cuts. "
+        "What decides the property on every run: the extracted reference search is run as an oracle against the "
+        "implementation on every generated history (each request's answer compared up to renaming of unbound variables), and "
+        "the executable model of the solver (Model/Solve.v, the object of the theorems) is compared with the implementation on "
+        "full substitution sets, variable-id counter and output.", ref="7/C01",
+   technique="Coq reference semantics extracted as oracle vs implementation + model-vs-implementation correspondence; Coq proofs of the parts listed (refinement theorem stated, not yet proved)"),
+ "C02": dict(
+   text="Machine-checked on the model of the solver, for all programs, goals and worlds: a node that reports a cut is "
+        "committed (no_backtracking set) - this covers the cut, every enclosing conjunction/disjunction node and the call that "
+        "chose the clause; a committed node yields nothing beyond the answer being derived, whatever is asked afterwards (so "
+        "no later clause, no re-try of the goals left of the cut, even when the goals after the cut fail); a call never "
+        "reports a cut to its caller (callers and siblings unaffected). That the answers before the cut are exactly the "
+        "reference's is part of refines_reference (stated, not yet proved) and is decided on every run by the extracted "
+        "reference search (terminal rules EndCut/AnsCut) used as oracle against the implementation, plus model-vs-"
+        "implementation correspondence with cut at every position of small bodies.", ref="7/C02",
+   technique="Coq proof of the commit invariants (Properties/C02.v) + extracted reference semantics as oracle + model-vs-implementation correspondence"),
+ "C03": dict(
+   text="Machine-checked for every goal G: a fresh not(G) node asks G's node once, answers with exactly the substitution it was "
+        "created with (no binding of G visible) iff that request finds no answer, fails otherwise, and is spent afterwards "
+        "(C05); the reference search's not has the single answer s iff G has none. That G's node finds an answer exactly when "
+        "the reference search of G has one is part of refines_reference (stated, not yet proved); decided on every run by the "
+        "extracted reference search as oracle against the implementation (19 goals G x 9 positions, random programs) and by "
+        "model-vs-implementation correspondence.", ref="7/C03",
+   technique="Coq proof about the not node and the reference's not (Properties/C03.v) + extracted reference semantics as oracle + model-vs-implementation correspondence"),
+ "C04": dict(
+   text="Machine-checked: print's formatting for all format strings and argument lists (pieces between %s markers interleaved "
+        "with the arguments, surplus arguments appended, surplus markers dropped) and that requests on an exhausted node write "
+        "nothing. Order and multiplicity of output relative to the reference search (out = output_of events in "
+        "refines_reference) is stated, not yet proved; it is decided on every run by comparing, per request, the text the "
+        "implementation writes with what the extracted reference search writes between the corresponding answers, and by "
+        "model-vs-implementation correspondence on the output of every operation.", ref="7/C04",
+   technique="Coq proof of print formatting (Properties/C04.v) + extracted reference semantics as per-request output oracle + model-vs-implementation correspondence"),
+ "C05": dict(
+   text="Machine-checked for ALL node kinds (calls, conjunctions, disjunctions, not, time, built-ins, with or without cut flags), "
+        "all programs, worlds and fuel: a request that finds no answer leaves the node in a `dead` state; a dead node answers "
+        "every request with None, reports no cut, leaves the whole world unchanged (no output, no variable id, no read of the "
+        "stop flag) and stays dead - hence any number of further requests report none and write nothing; solve keeps "
+        "answering `No more.`. Tied to the code by differential execution on histories that keep asking (8-16 requests) and by "
+        "checking the property directly on the implementation's observations.", ref="7/C05",
+   technique="Coq proof by mutual induction over next / and_loop / call_loop (Proofs/SolveDead.v, Properties/C05.v) + model-vs-implementation correspondence on re-ask histories"),
+
  "C10": dict(
    text="Machine-checked theorems about the model of recreate_variables / get_rule / make_query (all terms, goals, rules, "
         "knowledge bases, counters): a fetched clause equals the stored one once ids are erased (atoms, numbers, list nodes "
